@@ -230,6 +230,8 @@ def run(w: World, rep: Report):
         if not why and not fold_ok:
             why = f'the summation loop does not run over all of `{seq}` (first element as start, the rest added)'
         rep.check('C17.R4', f'functions.{name}|folds-every-element', not why, line=fi.node.lineno, file=REL, why=why)
+    from .rules_templates import sigfields_plumbed
+    sigfields_plumbed(w, rep, 'C17.R5')
     rep.explanation = (
         'Narrow: decides only a necessary condition of "the adapter passes the adapter check" - that both makers '
         'feed the Fiat-Shamir hash the same term shape as the checker (aggregate of nonce point and tweak point, '
